@@ -362,7 +362,11 @@ def run_metric(ctx, scratch, rng, quick):
 def run_optimisers(ctx, scratch, rng, quick):
     nmax = 14 if quick else 40
     cases = []
-    for _ in range(700 if quick else 4000):
+    for it in range(700 if quick else 4000):
+        if not quick and it % 2 == 0:
+            nmax = 14      # half of the thorough cases stay within the model's size cap
+        elif not quick:
+            nmax = 40
         shape = rng.choice(['undirected', 'undirected', 'undirected', 'directed', 'bipartite'])
         if shape == 'bipartite':
             r, c, E = gen.random_biadj(rng, max(2, nmax // 2), max(2, nmax // 2))
@@ -470,8 +474,10 @@ def run_optimisers(ctx, scratch, rng, quick):
     # ---- (c) model vs code (integer weights): Louvain, and Leiden with the captured refinement answers as oracle
     sel = []
     exprs = []
+    model_nmax = 14 if quick else 16     # exact-Q evaluation inside Coq: sizes capped (DESIGN section 7, C06 B)
+    model_limit = 1400 if quick else 3000
     for k, c in enumerate(cases):
-        if not c['integer']:
+        if not c['integer'] or working(c)[1] > model_nmax or len(exprs) >= model_limit:
             continue
         o = c['opts']
         for algo in ('louvain', 'leiden'):
